@@ -40,8 +40,8 @@ type fwdHandler struct {
 }
 
 func (h *fwdHandler) Enabled(context.Context, slog.Level) bool { return true }
-func (h *fwdHandler) WithAttrs([]slog.Attr) slog.Handler        { return h }
-func (h *fwdHandler) WithGroup(string) slog.Handler             { return h }
+func (h *fwdHandler) WithAttrs([]slog.Attr) slog.Handler       { return h }
+func (h *fwdHandler) WithGroup(string) slog.Handler            { return h }
 func (h *fwdHandler) Handle(_ context.Context, rec slog.Record) error {
 	if rec.Message != "received request" {
 		return nil
@@ -106,6 +106,28 @@ func targetMain(args []string) {
 			server.StartCSPTPServerIP(ctx, log, &net.UDPAddr{IP: lip, Port: 0}, 0)
 		}
 	}
+	// commands on stdin (verif hook of the key provider): "AGE <ns>" ages every key, "KEYS" lists them
+	go func() {
+		printKeys := func() {
+			var sb strings.Builder
+			now := time.Now()
+			for _, k := range provider.VerifKeys() {
+				fmt.Fprintf(&sb, " %d:%d", k.ID, int64(now.Sub(k.Validity.NotBefore)))
+			}
+			fmt.Printf("LOG KEYS%s\n", sb.String())
+		}
+		sc := bufio.NewScanner(os.Stdin)
+		for sc.Scan() {
+			f := strings.Fields(sc.Text())
+			if len(f) == 2 && f[0] == "AGE" {
+				ns, _ := strconv.ParseInt(f[1], 10, 64)
+				provider.VerifAge(time.Duration(ns))
+				printKeys()
+			} else if len(f) == 1 && f[0] == "KEYS" {
+				printKeys()
+			}
+		}
+	}()
 	fmt.Println("READY")
 	// SIGUSR1: walk the timestamp store under its own lock and report (verif hook)
 	sig := make(chan os.Signal, 1)
@@ -123,6 +145,7 @@ func init() { Legs["target"] = targetMain }
 
 type Target struct {
 	cmd    *exec.Cmd
+	stdin  io.WriteCloser
 	stderr *bytes.Buffer
 	mu     sync.Mutex
 	logs   []string
@@ -148,6 +171,9 @@ func StartTarget(variant string, args ...string) (*Target, error) {
 	t.cmd.SysProcAttr = &syscall.SysProcAttr{Pdeathsig: syscall.SIGKILL} // never outlive the monitor: the ports must be free for the next run
 	out, err := t.cmd.StdoutPipe()
 	if err != nil {
+		return nil, err
+	}
+	if t.stdin, err = t.cmd.StdinPipe(); err != nil {
 		return nil, err
 	}
 	if err := t.cmd.Start(); err != nil {
@@ -303,6 +329,36 @@ func (t *Target) StoreReport(d time.Duration) string {
 			return ""
 		case <-t.done:
 			return ""
+		}
+	}
+}
+
+// Keys sends a command to the child's key provider hook ("AGE <ns>" or "KEYS") and returns
+// the age in ns of every key the provider then holds, by identifier.
+func (t *Target) Keys(cmd string, d time.Duration) (map[int]int64, bool) {
+	t.DrainLogs()
+	if _, err := io.WriteString(t.stdin, cmd+"\n"); err != nil {
+		return nil, false
+	}
+	deadline := time.After(d)
+	for {
+		select {
+		case ln := <-t.logCh:
+			if strings.HasPrefix(ln, "LOG KEYS") {
+				m := map[int]int64{}
+				for _, f := range strings.Fields(ln)[2:] {
+					var id int
+					var age int64
+					if _, err := fmt.Sscanf(f, "%d:%d", &id, &age); err == nil {
+						m[id] = age
+					}
+				}
+				return m, true
+			}
+		case <-deadline:
+			return nil, false
+		case <-t.done:
+			return nil, false
 		}
 	}
 }
